@@ -51,14 +51,22 @@ def run_case(c):
     if c["blk"] == "craft":
         ts = np.array(c["pts2"], dtype=float) / 2.0
         mv = np.array(c["mv"], dtype=bool)
-        ts[mv, :] = np.nan
+        # a state is missing when ANY of its components is: every second case loses one component only
+        import zlib
+        if zlib.crc32(c["case"].encode()) % 2:
+            ts[mv, zlib.crc32(c["case"].encode()) % ts.shape[1]] = np.nan
+        else:
+            ts[mv, :] = np.nan
         kw = dict(metric="supremum", threshold=0.75, missing_values=bool(c["mvflag"]))
         rec["hasseq"] = 1
     else:
         ts = np.array(c["ser"], dtype=float) / c["den"]
         mv = np.array(c["mv"], dtype=bool)
+        import zlib
         if ts.ndim == 1:
             ts[mv] = np.nan
+        elif zlib.crc32(c["case"].encode()) % 2:
+            ts[mv, 0] = np.nan
         else:
             ts[mv, :] = np.nan
         kw = dict(metric=c["metric"], missing_values=bool(c["mvflag"]))
